@@ -112,10 +112,17 @@ def enc(cs):
     return ''.join(chr(c) for c in cs).encode('utf-8', 'surrogatepass')
 
 
-def build():
-    probe = vlib.build_probe('ren', includes=['uc', 'ren', 'dir'])
-    probe_asan = vlib.build_probe('ren', includes=['uc', 'ren', 'dir'], asan=True)
-    return probe, probe_asan
+def build(model=None, vi=False):
+    """plain and sanitized probe (and, if asked for, the extracted model and the real binary) built side by side"""
+    vlib.tmpdir()                       # create the scratch directory before the threads start
+    jobs = [lambda: vlib.build_probe('ren', includes=['uc', 'ren', 'dir']),
+            lambda: vlib.build_probe('ren', includes=['uc', 'ren', 'dir'], asan=True)]
+    if model:
+        jobs.append(model)
+    r = vlib.pmap(lambda f: f(), jobs)
+    if vi:
+        r.append(vlib.build_vi())       # shares the object directory of the plain probe
+    return r
 
 
 def parse_obs(s):
